@@ -9,7 +9,8 @@ from tools import proto, vlib
 class C40(vlib.Spec):
     model_vo = ["theories/Proto/RaftNet.vo"]
     props_vo = "theories/Props/C40.vo"
-    theorems = ["C40_raft_term_monotone", "C40_raft_vote_once_per_term", "C40_raft_commit_monotone"]
+    theorems = ["C40_raft_term_monotone", "C40_raft_vote_once_per_term", "C40_raft_commit_monotone",
+                "C40_raft_election_safety", "C40_raft_leader_append_only"]
     crate, group, binary = "h_raft", "hydro", "h_raft"
     imports = "From HV Require Import Proto.RaftNet."
     level = "other"
@@ -28,8 +29,9 @@ class C40(vlib.Spec):
             "non-trivial = cluster run that elected a leader and committed an entry, or a step with >=1 message/timer")
     explanation = (
         "Partial proof + correspondence. Proved in Coq for ALL executions of the network model over the transcribed "
-        "raft_step: term monotone, voted_for changes at most once per term, commit index monotone (see theorems). "
-        "State Machine Safety (C40_raft_sms) is stated in full but not proved; missing: Leader Completeness. "
+        "raft_step: term monotone, voted_for changes at most once per term, commit index monotone, Election Safety "
+        "(<=1 leader per term, quorum intersection), Leader Append-Only (see theorems). "
+        "State Machine Safety (C40_raft_sms) is stated in full but not proved; missing: Log Matching and Leader Completeness. "
         "Every run additionally compares the real raft_step field by field with the model on generated calls and "
         "evaluates election safety / log matching / SMS on whole cluster runs executed with the real raft_step. "
         "Paxos is not covered.")
